@@ -6,7 +6,7 @@ CONSTANTS
   MaxTotal = 3
   Styles = {"none", "PascalCase"}
   VStyles = {"inherit", "camelCase"}
-  Kinds = {"u64", "sg@", "fmt", "optnone", "ignore", "ts"}
+  Kinds = {"u64", "sg@", "optnone", "ignore", "ts"}
   Forms = {"s_named", "s_tuple", "s_unit", "e3_named"}
   Edges = {"plain", "none"}
   ScriptKinds = {}
